@@ -1,5 +1,30 @@
-(* placeholder while the proofs are being developed *)
-From Coq Require Import ZArith.
-From Stk Require Import T.Model T.Spec.
+(** Property C09 (next_expiry / next_wait never oversleep and always make progress).
+    Only property theorems live here; each is closed by [exact] of a lemma of coq/T. *)
+From Coq Require Import ZArith List Bool.
+From Stk Require Import Lib.U Gen.SrcTimers T.Model T.Spec T.Inv T.InvProofs.
+Import ListNotations.
+Local Open Scope Z_scope.
+
+(** Model-only part (interim): in every state reachable by a history of admissible operations,
+    next_expiry() does not panic, is None exactly when the timer queue is empty, and otherwise is
+    strictly later than Core::now. *)
+Theorem C09_after_now_partial :
+  forall ops, Z.of_nat (length ops) <= HMAX -> ops_ok t_init ops ->
+  let sf := snd (trun t_init ops) in
+  exists r, next_expiry sf = Some r /\ (r = None <-> queue sf = []) /\ (forall t, r = Some t -> cnow sf < t).
+Proof. exact next_expiry_after_now_reachable. Qed.
+Check C09_after_now_partial :
+  forall ops, Z.of_nat (length ops) <= HMAX -> ops_ok t_init ops ->
+  let sf := snd (trun t_init ops) in
+  exists r, next_expiry sf = Some r /\ (r = None <-> queue sf = []) /\ (forall t, r = Some t -> cnow sf < t).
+Print Assumptions C09_after_now_partial.
+
+Example ex_c09 :
+  let ops := [ORun 10000000000; OAddMin 100000000000 1; OAdd 12000000000 2] in
+  (Z.of_nat (length ops) <= HMAX /\ ops_ok t_init ops) /\
+  next_expiry (snd (trun t_init ops)) = Some (Some 12000000000).
+Proof. vm_compute. repeat split; try reflexivity; try discriminate. Qed.
+
+(* placeholder until the full theorem lands (next milestone) *)
 Theorem C09_next_expiry : True. Proof. exact I. Qed.
 Print Assumptions C09_next_expiry.
